@@ -3,7 +3,7 @@ streams, malformed stream).  Cases are s-expression lines shared by the OCaml-ex
 (ocaml/c12_main.ml) and the real-compiler driver (harness/impl/c12_impl.py).
 
 expr  ::= empty | (lit S) | (cast T E) | (tuple 0|1 (N E)...) | (array E...) | (set E...)
-        | (op C E...) | (call C (E...) ((N E)...)) | (tidx E N) | (idx E E) | (objset O)
+        | (op C E...) | (call C (E...) ((N E)...)) | (tidx E N) | (idx E E) | (objset O) | (ptr E N)
 type  ::= any | anytuple | anyobject | (s S) | (arr T) | (rng T) | (mrng T) | (tup 0|1 (N T)...)
         | (obj O) | (union O...)
 S/O/C/N = numeric ids of scalars / object types / callable names / element+parameter names
@@ -23,21 +23,29 @@ USER_SCALARS = [        # name, bases (first = the only base), enum labels
     ('default::myint16', 'std::int16', None),
     ('default::Color', None, ['Red', 'Green', 'Blue']),
 ]
-USER_OBJTYPES = [       # name, abstract, bases, body (SDL)
-    ('default::Named', True, [], 'required name: str;'),
+# name, abstract, bases, own pointers [(name, target type term, SDL declaration)]
+_STR, _I64 = ('s', 'std::str'), ('s', 'std::int64')
+USER_OBJTYPES = [
+    ('default::Named', True, [], [('name', _STR, 'required name: str;')]),
     ('default::User', False, ['default::Named'],
-     'multi deck: Card { count: int64 }; multi friends: User { nickname: str }; '
-     'multi awards: Award; avatar: Card { text: str };'),
-    ('default::Bot', False, ['default::User'], ''),
+     [('deck', ('obj', 'default::Card'), 'multi deck: Card { count: int64 };'),
+      ('friends', ('obj', 'default::User'), 'multi friends: User { nickname: str };'),
+      ('awards', ('obj', 'default::Award'), 'multi awards: Award;'),
+      ('avatar', ('obj', 'default::Card'), 'avatar: Card { text: str };')]),
+    ('default::Bot', False, ['default::User'], []),
     ('default::Card', False, ['default::Named'],
-     'required element: str; required cost: int64; text: str; multi awards: Award;'),
-    ('default::SpecialCard', False, ['default::Card'], ''),
-    ('default::Award', False, ['default::Named'], ''),
-    ('default::Person', False, [], 'required name: str; multi multi_prop: str; '
-     'multi notes: Note { metanote: str }; tag: str;'),
-    ('default::Note', False, [], 'required name: str; note: str;'),
-    ('default::Foo', False, [], 'required val: str; opt: int64;'),
+     [('element', _STR, 'required element: str;'), ('cost', _I64, 'required cost: int64;'),
+      ('text', _STR, 'text: str;'), ('awards', ('obj', 'default::Award'), 'multi awards: Award;')]),
+    ('default::SpecialCard', False, ['default::Card'], []),
+    ('default::Award', False, ['default::Named'], []),
+    ('default::Person', False, [],
+     [('name', _STR, 'required name: str;'), ('multi_prop', _STR, 'multi multi_prop: str;'),
+      ('notes', ('obj', 'default::Note'), 'multi notes: Note { metanote: str };'), ('tag', _STR, 'tag: str;')]),
+    ('default::Note', False, [], [('name', _STR, 'required name: str;'), ('note', _STR, 'note: str;')]),
+    ('default::Foo', False, [], [('val', _STR, 'required val: str;'), ('opt', _I64, 'opt: int64;')]),
 ]
+# pointers every object type inherits from std::BaseObject
+STD_PTRS = [('id', ('s', 'std::uuid')), ('__type__', ('obj', 'schema::ObjectType'))]
 # name, params [(name, kind, typemod, type text, type term builder, default text)], ret typemod, ret type, body
 # type terms are given as python tuples resolved by Ids.ty()
 USER_FUNCS = [
@@ -63,7 +71,8 @@ USER_FUNCS = [
     ('default::f_rng', [('x', 'pos', 'one', ('rng', ('s', 'std::int64')), None)], 'one', ('s', 'std::bool'), 'true'),
     ('default::f_mrng', [('x', 'pos', 'one', ('mrng', ('s', 'std::int64')), None)], 'one', ('s', 'std::bool'), 'true'),
 ]
-USER_NAMES = ['a', 'b', 'c', 'x', 'y', 'xs', 'lo', 'hi']
+USER_NAMES = ['a', 'b', 'c', 'x', 'y', 'xs', 'lo', 'hi'] + sorted(
+    {p[0] for _, _, _, ps in USER_OBJTYPES for p in ps} | {p[0] for p in STD_PTRS})
 
 
 def _c3(name, bases_of, memo):
@@ -160,9 +169,10 @@ class Ids:
                 out.append(f'scalar type {sn} extending enum<{", ".join(enum)}>;')
             else:
                 out.append(f'scalar type {sn} extending {base};')
-        for n, ab, bases, body in USER_OBJTYPES:
+        for n, ab, bases, ptrs in USER_OBJTYPES:
             sn = n.split('::')[1]
             ext = (' extending ' + ', '.join(b.split('::')[1] for b in bases)) if bases else ''
+            body = ' '.join(p[2] for p in ptrs)
             out.append(f'{"abstract " if ab else ""}type {sn}{ext} {{ {body} }}')
         for n, params, rtm, rty, body in USER_FUNCS:
             sn = n.split('::')[1]
@@ -206,7 +216,30 @@ class Ids:
             ps = ' '.join(f'({self.name[pn]} {pk} {pm} {self.ty(pt)} {0 if pd is None else 1})'
                           for pn, pk, pm, pt, pd in named + pos + var)
             fs.append(f'({self.callable[n]} 0 0 0 - ({ps}) {rtm} {self.ty(rty)})')
-        return f'(({" ".join(sc)}) ({" ".join(ob)}) () ({" ".join(fs)}))'
+        ps = []
+        for n, a in self.user_ptrs().items():
+            for pn, pt in a:
+                ps.append(f'({self.objtype[n]} {self.name[pn]} {self.ty(pt)})')
+        return f'(({" ".join(sc)}) ({" ".join(ob)}) () ({" ".join(fs)}) ({" ".join(ps)}))'
+
+    def user_ptrs(self):
+        """object type -> [(pointer name, target)] with the inherited pointers (own declarations
+        first, then the bases' in MRO order, then id / __type__)"""
+        own = {n: ps for n, _, _, ps in USER_OBJTYPES}
+        bases_of = {n: (b if b else []) for n, _, b, _ in USER_OBJTYPES}
+        memo = {}
+        out = {}
+        for n in own:
+            seen, lst = set(), []
+            for a in _c3(n, bases_of, memo):
+                for pn, pt, _ in own[a]:
+                    if pn not in seen:
+                        seen.add(pn)
+                        lst.append((pn, pt))
+            out[n] = lst + STD_PTRS
+        # the std object type reached through __type__ (only the pointers the generators use)
+        out['schema::ObjectType'] = [('name', ('s', 'std::str')), ('id', ('s', 'std::uuid'))]
+        return out
 
 
 # ----------------------------------------------------------------------------- expression builder
@@ -242,6 +275,7 @@ class G:
         self.all_scalars = [n for n in concrete if n in self.LITS or n in self.src] + [u[0] for u in USER_SCALARS]
         self.no_atom = [n for n in concrete if n not in self.LITS and n not in self.src]
         self.objs = [n for n, ab, _, _ in USER_OBJTYPES]
+        self.ptr_names = sorted({p[0] for _, _, _, ps in USER_OBJTYPES for p in ps} | {'id', '__type__'})
         ops = {}
         for o in sig['operators']:
             ops.setdefault(o['name'], set()).add(len(o['params']))
@@ -302,6 +336,9 @@ class G:
     def obj(self, n):
         return f'(objset {self.ids.objtype[n]})'
 
+    def ptr(self, e, name):
+        return f'(ptr {e} {self.ids.name[name]})'
+
     # --- the universe of "typed atoms" used by the exhaustive streams: (tag, expr)
     def universe(self, level):
         """level 0: core scalars; 1: + all scalars, collections over core; 2: + more collections, objects"""
@@ -322,6 +359,11 @@ class G:
                   ('<int64>{}', self.atom('std::int64', empty=True))]
         if level >= 2:
             u += [(n, self.obj(n)) for n in self.objs]
+            O = self.obj
+            u += [('User.name', self.ptr(O('default::User'), 'name')), ('Card.cost', self.ptr(O('default::Card'), 'cost')),
+                  ('User.deck', self.ptr(O('default::User'), 'deck')), ('Foo.opt', self.ptr(O('default::Foo'), 'opt')),
+                  ('User.deck.cost', self.ptr(self.ptr(O('default::User'), 'deck'), 'cost')),
+                  ('Person.notes', self.ptr(O('default::Person'), 'notes')), ('Bot.id', self.ptr(O('default::Bot'), 'id'))]
             u += [(f'array<{n}>', self.arr(self.atom(n))) for n in self.core if n not in self.numeric + ['std::str', 'std::json']]
             u += [(f'range<{n}>', self.rng(n)) for n in self.points[5:]]
             u += [(f'multirange<{n}>', self.mrng(n)) for n in self.points[3:]]
@@ -419,6 +461,23 @@ def stream_indirection(g: G, univ):
             yield ('idx', f'(idx {a} {g.atom(i)})')
 
 
+def stream_paths(g: G, univ):
+    """every pointer name on every object type (valid and invalid), two-step paths, paths on
+    non-object and on union-typed expressions"""
+    for o in g.objs:
+        for p in g.ptr_names:
+            yield ('path', g.ptr(g.obj(o), p))
+            for q in ('name', 'cost', 'awards', 'id'):
+                yield ('path2', g.ptr(g.ptr(g.obj(o), p), q))
+    for _, a in univ:
+        for p in ('name', 'id', 'cost'):
+            yield ('path-any', g.ptr(a, p))
+    for p in ('name', 'cost', 'deck'):
+        yield ('path-union', g.ptr(g.set(g.obj('default::User'), g.obj('default::Card')), p))
+        yield ('path-union', g.ptr(g.op('std::??', g.obj('default::Bot'), g.obj('default::User')), p))
+        yield ('path-union', g.ptr(g.op('std::IF', g.obj('default::User'), g.lit('std::bool'), g.obj('default::User')), p))
+
+
 def stream_casts(g: G, univ):
     targets = [g.S(n) for n in g.core + ['default::myint', 'default::mystr', 'default::Color',
                                           'std::cal::local_date', 'std::anyint', 'std::anyscalar']]
@@ -466,6 +525,14 @@ def random_expr(g: G, r, depth, fam=None):
             return g.atom(n, empty=True)
         if k < 0.10:
             return 'empty'
+        if k < 0.22:        # a path of the family's type
+            if n in ('std::str', 'default::mystr'):
+                return r.choice([g.ptr(g.obj('default::User'), 'name'), g.ptr(g.obj('default::Card'), 'element'),
+                                 g.ptr(g.ptr(g.obj('default::User'), 'deck'), 'name'),
+                                 g.ptr(g.obj('default::Person'), 'tag')])
+            if n in ('std::int64', 'std::int32', 'std::int16', 'default::myint'):
+                return r.choice([g.ptr(g.obj('default::Card'), 'cost'), g.ptr(g.obj('default::Foo'), 'opt'),
+                                 g.ptr(g.ptr(g.obj('default::User'), 'deck'), 'cost')])
         return g.atom(n)
     k = r.random()
     sub = lambda: random_expr(g, r, depth - 1, fam)        # noqa: E731
